@@ -70,6 +70,7 @@ func (t *Total) Validate() error {
 // Validate ensures the rate totals of the category look correct.
 func (ct *CategoryTotal) Validate() error {
 	return validation.ValidateStruct(ct,
+		validation.Field(&ct.Code),
 		validation.Field(&ct.Rates),
 	)
 }
@@ -78,6 +79,7 @@ func (ct *CategoryTotal) Validate() error {
 // have been provided by hand in a document reference, are defined.
 func (rt *RateTotal) Validate() error {
 	return validation.ValidateStruct(rt,
+		validation.Field(&rt.Key),
 		validation.Field(&rt.Country),
 		validation.Field(&rt.Ext),
 	)
